@@ -19,7 +19,7 @@ namespace Ovld.Build
 def AllGood (cfg : Cfg) (ds : List Nat) : Prop := cfg.namesOK ds = true ∧ ∀ d ∈ ds, cfg.bad d = false
 
 def Safe (s : S) : Prop :=
-  s.entry = none ∨ (s.compiled = true ∧ s.entry = some s.defns ∧ s.table = s.defns)
+  (s.entry = none ∧ s.compiled = false) ∨ (s.compiled = true ∧ s.entry = some s.defns ∧ s.table = s.defns)
 
 theorem fill_spec (cfg : Cfg) : ∀ (ds table : List Nat) (f : Option Nat),
     (fill cfg table ds f).2.1 = true →
@@ -67,22 +67,22 @@ theorem compileRaw_spec (cfg : Cfg) (s : S) (f : Option Nat) :
   · simp
   split
   · simp
-  split
-  · simp
-  split
-  · simp
-  · rename_i t f' heq
+  · rename_i hn
+    simp at hn
     split
     · simp
-    · have := fill_spec cfg _ _ _ (by rw [heq])
+    · rename_i t f' heq
+      have := fill_spec cfg _ _ _ (by rw [heq])
       rw [heq] at this
       simp at this
-      rename_i _ _ hn _ _ _
-      simp at hn
-      exact ⟨rfl, fun _ => ⟨rfl, rfl, this.1, hn, this.2⟩⟩
+      split
+      · simp
+      split
+      · simp
+      · exact ⟨rfl, fun _ => ⟨rfl, rfl, this.1, hn, this.2⟩⟩
 
 
-theorem handler_safe (s : S) : Safe (handler s) := Or.inl rfl
+theorem handler_safe (s : S) : Safe (handler s) := Or.inl ⟨rfl, rfl⟩
 
 /-- whatever state a build starts from and wherever it fails, it ends `Safe`; it never changes the definitions -/
 theorem compile_safe (cfg : Cfg) (s : S) (f : Option Nat) :
@@ -92,7 +92,7 @@ theorem compile_safe (cfg : Cfg) (s : S) (f : Option Nat) :
   rcases h : compileRaw cfg s f with ⟨s', b, f'⟩
   rw [h] at hsp
   cases b
-  · exact ⟨Or.inl rfl, hsp.1⟩
+  · exact ⟨Or.inl ⟨rfl, rfl⟩, hsp.1⟩
   · obtain ⟨h1, h2, h3, _⟩ := hsp.2 rfl
     refine ⟨Or.inr ⟨h1, ?_, ?_⟩, hsp.1⟩
     · show s'.entry = some s'.defns
@@ -120,7 +120,7 @@ theorem compile_succeeds (cfg : Cfg) (s : S) (h : AllGood cfg s.defns) : (compil
 theorem compile_cases (cfg : Cfg) (s : S) (f : Option Nat) :
     ∃ s' f', (compile cfg s f = (s', true, f') ∧ s'.compiled = true ∧ s'.entry = some s.defns ∧
         s'.table = s.defns ∧ s'.defns = s.defns ∧ AllGood cfg s.defns) ∨
-      (compile cfg s f = (s', false, f') ∧ s'.entry = none ∧ s'.defns = s.defns) := by
+      (compile cfg s f = (s', false, f') ∧ s'.entry = none ∧ s'.compiled = false ∧ s'.defns = s.defns) := by
   have hok := compile_ok cfg s f
   have hsafe := compile_safe cfg s f
   rcases hc : compile cfg s f with ⟨s', b, f'⟩
@@ -128,21 +128,21 @@ theorem compile_cases (cfg : Cfg) (s : S) (f : Option Nat) :
   refine ⟨s', f', ?_⟩
   cases b
   · right
-    refine ⟨rfl, ?_, hsafe.2⟩
     -- a failed build went through the handler
-    have : (compile cfg s f).1.entry = none := by
+    have : (compile cfg s f).1.entry = none ∧ (compile cfg s f).1.compiled = false := by
       unfold compile at hc ⊢
       rcases hr : compileRaw cfg s f with ⟨s'', b', f''⟩
       rw [hr] at hc
       cases b'
-      · rfl
+      · exact ⟨rfl, rfl⟩
       · simp at hc
-    rw [hc] at this; exact this
+    rw [hc] at this
+    exact ⟨rfl, this.1, this.2, hsafe.2⟩
   · left
     obtain ⟨h1, h2, h3, h4⟩ := hok rfl
     exact ⟨rfl, h1, h2, h3, hsafe.2, h4⟩
 
-theorem safe_of_entry_none {s : S} (h : s.entry = none) : Safe s := Or.inl h
+theorem safe_of_entry_none {s : S} (h : s.entry = none) (hc : s.compiled = false) : Safe s := Or.inl ⟨h, hc⟩
 
 theorem safe_built {s' s : S} (h1 : s'.compiled = true) (h2 : s'.entry = some s.defns)
     (h3 : s'.table = s.defns) (h4 : s'.defns = s.defns) : Safe s' :=
@@ -156,16 +156,22 @@ theorem dispatchCall_spec (cfg : Cfg) (s : S) (f : Option Nat) (hs : Safe s) :
   split
   · rename_i e he
     rcases hs with hs | ⟨_, h2, h3⟩
-    · rw [hs] at he; cases he
+    · rw [hs.1] at he; cases he
     · rw [h2] at he; cases he
       simp [h3]
       exact Or.inr ⟨‹_›, h2, h3⟩
-  · rcases compile_cases cfg s f with ⟨s', f', ⟨hc, h1, h2, h3, h4, _⟩ | ⟨hc, h1, h2⟩⟩
+  · rename_i he
+    have hnc : s.compiled = false := by
+      rcases hs with hs | ⟨_, h2, _⟩
+      · exact hs.2
+      · rw [h2] at he; cases he
+    rw [if_neg (by simp [hnc])]
+    rcases compile_cases cfg s f with ⟨s', f', ⟨hc, h1, h2, h3, h4, _⟩ | ⟨hc, h1, h1', h2⟩⟩
     · rw [hc]
       simp [h2, h3, h4]
       exact safe_built h1 h2 h3 h4
     · rw [hc]
-      refine ⟨Or.inl rfl, Or.inl h1, h2, ?_⟩
+      refine ⟨Or.inl rfl, Or.inl ⟨h1, h1'⟩, h2, ?_⟩
       intro hf hg
       subst hf
       have := compile_succeeds cfg s hg
@@ -182,7 +188,7 @@ theorem call_spec (cfg : Cfg) (s : S) (r : Route) (f : Option Nat) (hs : Safe s)
   | obj =>
     dsimp only
     split
-    · rcases compile_cases cfg s f with ⟨s', f', ⟨hc, h1, h2, h3, h4, _⟩ | ⟨hc, h1, h2⟩⟩
+    · rcases compile_cases cfg s f with ⟨s', f', ⟨hc, h1, h2, h3, h4, _⟩ | ⟨hc, h1, h1', h2⟩⟩
       · rw [hc]
         dsimp only
         have hd : dispatchCall cfg s' f' = (s', .served s.defns s.defns) := by
@@ -190,7 +196,7 @@ theorem call_spec (cfg : Cfg) (s : S) (r : Route) (f : Option Nat) (hs : Safe s)
         rw [hd]
         exact ⟨Or.inr rfl, safe_built h1 h2 h3 h4, h4, fun _ _ => rfl⟩
       · rw [hc]
-        refine ⟨Or.inl rfl, Or.inl h1, h2, ?_⟩
+        refine ⟨Or.inl rfl, Or.inl ⟨h1, h1'⟩, h2, ?_⟩
         intro hf hg
         subst hf
         have := compile_succeeds cfg s hg
@@ -208,11 +214,11 @@ theorem update_safe (cfg : Cfg) (s : S) (f : Option Nat) (hs : s.compiled = fals
     cases b <;> exact this
   · rename_i h
     simp at h
-    exact Or.inl (hs h)
+    exact Or.inl ⟨hs h, h⟩
 
 theorem entry_none_of_not_compiled {s : S} (hs : Safe s) (h : s.compiled = false) : s.entry = none := by
   rcases hs with hs | ⟨h1, _, _⟩
-  · exact hs
+  · exact hs.1
   · rw [h] at h1; cases h1
 
 theorem strikes_dec {f : Option Nat} (h1 : strikes f = false) (h2 : strikes (dec f) = true) : f = some 1 := by
@@ -241,7 +247,7 @@ theorem C18_step_safe (cfg : Cfg) (s : S) (op : Op) (hs : Safe s) (hg : op.inGap
       have hf := strikes_dec h0 h1
       subst hf
       have hc : s.compiled = false := hg
-      exact Or.inl (entry_none_of_not_compiled (s := s) hs hc)
+      exact Or.inl ⟨entry_none_of_not_compiled (s := s) hs hc, hc⟩
     · apply update_safe
       intro hc
       exact entry_none_of_not_compiled (s := s) hs hc
@@ -258,7 +264,7 @@ theorem C18_step_safe (cfg : Cfg) (s : S) (op : Op) (hs : Safe s) (hg : op.inGap
       have hf := strikes_dec h0 h1
       subst hf
       have hc : s.compiled = false := hg
-      exact Or.inl (entry_none_of_not_compiled (s := s) hs hc)
+      exact Or.inl ⟨entry_none_of_not_compiled (s := s) hs hc, hc⟩
     · apply update_safe
       intro hc
       exact entry_none_of_not_compiled (s := s) hs hc
@@ -275,7 +281,7 @@ theorem runOps_safe (cfg : Cfg) : ∀ (ops : List Op) (s : S), Safe s → opsNoG
 
 /-- **C18, every history** of registrations, removals and calls, each interrupted at an arbitrary micro-step -/
 theorem C18_safe (cfg : Cfg) (ops : List Op) (hg : opsNoGap cfg {} ops = true) : Safe (runOps cfg {} ops) :=
-  runOps_safe cfg ops {} (Or.inl rfl) hg
+  runOps_safe cfg ops {} (Or.inl ⟨rfl, rfl⟩) hg
 
 /-- **later calls** (through the function object or through the dispatch function, themselves possibly
     interrupted) either fail or are answered by the entry point of the complete method set over the complete
@@ -312,13 +318,17 @@ theorem C18_gap_counterexample :
   unfold Safe
   decide
 
-/-- non-vacuity: a history with a natural failure, an interrupt in the middle of the fill loop and a removal -/
+/-- non-vacuity: a history with a natural failure, an interrupt in the middle of the fill loop and a removal.
+    Budget `some 3` of the third operation: one tick for `table := []`, one for the argument analysis, one for the
+    registration of method 1, and the interrupt strikes before method 2 is registered (last conjunct: the state the
+    handler finds has the half-filled table `[1]` and still the trampoline as entry point). -/
 example :
     let cfg : Cfg := ⟨fun d => d == 3, fun _ => true⟩
-    let ops : List Op := [.register 1 none, .register 2 none, .call .fn (some 4), .register 3 none, .call .obj none,
+    let ops : List Op := [.register 1 none, .register 2 none, .call .fn (some 3), .register 3 none, .call .obj none,
       .unregister 3 none, .call .fn none]
     opsNoGap cfg {} ops = true ∧ (runOps cfg {} ops).table = [1, 2] ∧
-      (step cfg (runOps cfg {} (ops.take 4)) (.call .obj none)).2 = .error := by
+      (step cfg (runOps cfg {} (ops.take 4)) (.call .obj none)).2 = .error ∧
+      (compileRaw cfg (runOps cfg {} (ops.take 2)) (some 3)).1 = { defns := [1, 2], table := [1] } := by
   decide
 
 end Ovld.Build
